@@ -490,11 +490,13 @@ def run_check(spec, tier, seed, replay=None):
         req = reqs[i]
         if hasattr(spec, "shrink"):
             req, simpl = shrink_case(spec, hexe, drv, req, key, secs, hwork)
+            smodel = run_driver(drv, ["M " + req])[0] if drv else model[i]
+            sjudge = run_driver(drv, ["S %s ## %s" % (req, simpl)])[0] if drv else judge[i]
         else:
-            simpl = impl[i]
+            simpl, smodel, sjudge = impl[i], model[i], judge[i]
         path = write_replay(pid, "fail_%s.json" % re.sub(r"[^A-Za-z0-9_.-]", "_", key)[:80], {
             "property": pid, "kind": "concrete", "seed": seed, "finding_key": key,
-            "input": req, "impl_output": simpl, "model_output": model[i], "judge_output": judge[i],
+            "input": req, "impl_output": simpl, "model_output": smodel, "judge_output": sjudge,
             "occurrences": len(idxs),
             "how_to_replay": "./check %s --replay-file <this file>   (or: ./check %s --replay '<input>')" % (pid, pid)})
         violations.append((path, ""))
